@@ -921,6 +921,7 @@ fn main() {
     let mut map: Option<PathBuf> = None;
     let mut canary = false;
     let mut stubs: Vec<String> = vec![];
+    let mut nospec = false;
     let mut i = 1;
     while i < args.len() {
         match args[i].as_str() {
@@ -938,6 +939,10 @@ fn main() {
             }
             "--canary" => {
                 canary = true;
+                i += 1;
+            }
+            "--nospec" => {
+                nospec = true;
                 i += 1;
             }
             "--stub" => {
@@ -1110,7 +1115,7 @@ fn main() {
                 let hoist_name = d.sig.as_ref().and_then(|sg| sg.find("fn ").map(|p| sg[p + 3..].chars().take_while(|c| c.is_alphanumeric() || *c == '_').collect::<String>())).unwrap_or_default();
                 if d.hoist.is_some() && stubs.contains(&stub_key) {
                     stubbed.push(hoist_name.clone());
-                    output.push_str(&format!("// vx:STUBBED {} {} — contract kept as ASSUMED, body UNVERIFIED\n#[verifier::external_body]\n{}\n{}{{ unimplemented!() }}\n", d.file, d.selector, d.sig.clone().unwrap_or_default(), d.spec));
+                    output.push_str(&format!("// vx:STUBBED {} {} — contract kept as ASSUMED, body UNVERIFIED\n#[verifier::external_body]\n{}\n{}{{ unimplemented!() }}\n", d.file, d.selector, d.sig.clone().unwrap_or_default(), if nospec { "" } else { d.spec.as_str() }));
                     fn_maps.push(serde_json::json!({"selector": d.selector, "file": d.file, "slice": false, "name": hoist_name, "stubbed": true,
                         "src_lines": [0,0], "out_lines": [0,0], "awaits_erased": 0, "closures": 0, "loops": 0, "has_requires": false, "edits": {}}));
                     continue;
@@ -1316,7 +1321,8 @@ fn main() {
                         s.push_str("}\n");
                         s
                     };
-                    let mut text = mk(&sig_text, &d.spec);
+                    let spec_used: String = if stub_this && nospec { String::new() } else { d.spec.clone() };
+                    let mut text = mk(&sig_text, &spec_used);
                     if canary && !d.nocanary && !stub_this && spec_has_requires(&d.spec) {
                         let fname = d.name.clone().unwrap_or_else(|| sig.ident.to_string());
                         let csig = replace_fn_name(&sig_text, &fname, &format!("{fname}__canary"));
